@@ -28,11 +28,15 @@ func getValidityFlag() *abool.AtomicBool {
 // signalChanges marks the configs validtityFlag as dirty and eventually
 // triggers a config change event.
 func signalChanges() {
+	verifEvent("signal:begin")
 	// reset validity flag
 	validityFlagLock.Lock()
 	validityFlag.SetTo(false)
+	verifEvent("signal:invalidated", validityFlag)
 	validityFlag = abool.NewBool(true)
+	verifEvent("signal:installed", validityFlag)
 	validityFlagLock.Unlock()
+	verifEvent("signal:end")
 
 	module.TriggerEvent(ChangeEvent, nil)
 }
@@ -103,6 +107,7 @@ func ReplaceConfig(newValues map[string]interface{}) (validationErrors []*Valida
 				requiresRestart = true
 			}
 		}()
+		verifEvent("replace:written", key)
 	}
 
 	signalChanges()
@@ -141,6 +146,7 @@ func ReplaceDefaultConfig(newValues map[string]interface{}) (validationErrors []
 				requiresRestart = true
 			}
 		}()
+		verifEvent("replace:written", key)
 	}
 
 	signalChanges()
@@ -179,6 +185,7 @@ func setConfigOption(key string, value any, push bool) (err error) {
 
 	handleOptionUpdate(option, push)
 	option.Unlock()
+	verifEvent("set:written", key)
 
 	if err != nil {
 		return err
@@ -221,6 +228,7 @@ func setDefaultConfigOption(key string, value interface{}, push bool) (err error
 
 	handleOptionUpdate(option, push)
 	option.Unlock()
+	verifEvent("set:written", key)
 
 	if err != nil {
 		return err
